@@ -8,7 +8,8 @@ for f in "$W"/refactor-*.diff; do
   n=$(basename "$f" .diff | sed 's/refactor-//')
   if ! git -C /repo apply --check "$f" 2>/dev/null; then echo "$ID-$n: patch does not apply"; continue; fi
   git -C /repo apply "$f"
-  out=$(/verif/bin/olacheck -prop all -no-evidence -v 2>&1 | grep -E "^ *false" | grep -v "LK-CTA\|cycle{cache" | cut -c1-400)
+  raw=$(/verif/bin/olacheck -prop all -no-evidence -v 2>&1); out=""
+  if echo "$raw" | grep -q "VIOLATION\|olacheck: error\|panic"; then out=$(echo "$raw" | grep -E "^ *false|^VIOLATION|olacheck: error|^panic" | grep -v "LK-CTA\|cycle{cache" | cut -c1-400); fi
   git -C /repo checkout -- . ; git -C /repo clean -fdq
   rm -f /verif/replays/*.json
   d=/verif/benign/$ID-$n; mkdir -p "$d"; cp "$f" "$d/patch.diff"
